@@ -3,6 +3,7 @@ package main
 import (
 	"fmt"
 	"go/token"
+	"go/types"
 	"sort"
 	"strings"
 
@@ -66,6 +67,33 @@ func ruleGuarded(r *Run, p *Program, rule string) {
 					okCount++
 				}
 				continue
+			}
+			// any other store into memory reachable from the handle the entry was called on (a field added to the
+			// shared structures is covered without being listed)
+			if st, ok := n.In.(*ssa.Store); ok {
+				ap := accessPath(n.Ctx, st.Addr)
+				if rp, isp := ap.Root.(*ssa.Parameter); isp && ap.Ctx != nil && ap.Ctx.Parent == nil && ap.Chain != "" && len(f.Params) > 0 && rp == f.Params[0] {
+					nAcc++
+					need := ""
+					if typeName(derefType(rp.Type())) == "pogreb.ItemIterator" && strings.Count(ap.Chain, ".") == 1 {
+						if !held["iter"] {
+							need = "ItemIterator.mu"
+						}
+					} else if !holdsWrite(held) {
+						need = "DB.mu (exclusive)"
+					}
+					if need != "" {
+						key := funcKey(n.Ctx.Fn) + ":store:" + ap.Chain
+						if !seen[key] {
+							seen[key] = true
+							r.bad(rule, funcKey(n.Ctx.Fn)+":write("+rp.Name()+ap.Chain+")", p.Pos(instrPos(n.In)),
+								fmt.Sprintf("write to %s%s (memory shared through the handle) reachable from %s without %s held (held on every path: {%s}): concurrent callers of the read-side API race on it", rp.Name(), ap.Chain, e.Key, need, lockSetString(held)), w.PathTo(n)...)
+						}
+					} else {
+						okCount++
+					}
+					continue
+				}
 			}
 			if fe := sharedFileEvent(n); fe != nil {
 				nAcc++
@@ -505,4 +533,81 @@ func ruleC05PickSealAtomic(r *Run, p *Program, rule string) {
 	r.check(same, rule, "(*pogreb.DB).Compact:pick-and-seal-one-section", p.Pos(instrPos(pick.In)),
 		"the picked segments are sealed inside the same critical section of DB.mu in which they were picked",
 		"the segments picked for compaction are sealed only later, in another critical section: a Delete acknowledged in between appends its delete record to a picked, still writable segment that was judged to hold none; compaction then drops the record without compacting the older segments and the deleted key comes back after a crash")
+}
+
+// ruleNoRetainedLocations: a segment location (an index slot: segment id + offset) is valid only while DB.mu is held -
+// compaction repoints slots and removes segments between any two critical sections. The long-lived state reachable
+// from the handles (*DB, *ItemIterator) and from package variables must therefore not be able to hold a slot (or a
+// bucket full of them): locations are looked up afresh, under the lock, every time.
+func ruleNoRetainedLocations(r *Run, p *Program, rule string) {
+	slot := p.NamedType(p.Main, "slot")
+	if !r.anchor(rule, "type pogreb.slot", slot != nil) {
+		return
+	}
+	type root struct {
+		name string
+		t    types.Type
+	}
+	var roots []root
+	for _, n := range []string{"DB", "ItemIterator"} {
+		nt := p.NamedType(p.Main, n)
+		if r.anchor(rule, "type pogreb."+n, nt != nil) {
+			roots = append(roots, root{n, nt})
+		}
+	}
+	sc := p.Main.Types.Scope()
+	for _, nm := range sc.Names() {
+		if v, ok := sc.Lookup(nm).(*types.Var); ok {
+			roots = append(roots, root{"var " + nm, v.Type()})
+		}
+	}
+	visited := 0
+	for _, rt := range roots {
+		seen := map[types.Type]bool{}
+		var bad []string
+		var walk func(t types.Type, path string)
+		walk = func(t types.Type, path string) {
+			if seen[t] {
+				return
+			}
+			seen[t] = true
+			if n, ok := t.(*types.Named); ok {
+				if n == slot {
+					bad = append(bad, path)
+					return
+				}
+				if n.Obj().Pkg() == nil || !strings.HasPrefix(n.Obj().Pkg().Path(), modPath) {
+					return // foreign types cannot hold a pogreb slot
+				}
+				visited++
+			}
+			switch u := t.Underlying().(type) {
+			case *types.Struct:
+				for i := 0; i < u.NumFields(); i++ {
+					walk(u.Field(i).Type(), path+"."+u.Field(i).Name())
+				}
+			case *types.Pointer:
+				walk(u.Elem(), path)
+			case *types.Slice:
+				walk(u.Elem(), path+"[]")
+			case *types.Array:
+				walk(u.Elem(), path+"[]")
+			case *types.Map:
+				walk(u.Key(), path+"[key]")
+				walk(u.Elem(), path+"[]")
+			case *types.Chan:
+				walk(u.Elem(), path+"<-")
+			}
+		}
+		walk(rt.t, rt.name)
+		sort.Strings(bad)
+		if len(bad) == 0 {
+			r.ok(rule, rt.name, "", "no state reachable from "+rt.name+" can hold an index slot (segment location) across critical sections", true)
+			continue
+		}
+		for _, b := range bad {
+			r.bad(rule, b, "", b+" can hold an index slot (segment id and offset) beyond the critical section in which it was read: compaction repoints slots and removes or reuses segments between two sections, so the retained location later reads another record, or a removed segment (nil dereference)")
+		}
+	}
+	r.universe(rule, visited, 8)
 }
